@@ -6,7 +6,8 @@ import _msggen as G
 ID = "C16"
 FAMILY = "message"
 RULE = ("mode 2/3: byte strings (random; valid encodings truncated at every length; length fields set to "
-        "0, remaining+-1, 2^31, 2^32-1; boolean bytes 0..255; trailing garbage) are decoded by the real decode / "
+        "0, remaining+-1, 2^31, 2^32-1; boolean bytes 0..255; trailing garbage; encodings of exactly the fixed size -- every "
+        "empty / non-empty combination of the variable fields -- and those one byte shorter and longer) are decoded by the real decode / "
         "decode_signed from an exact-size heap block under ASan+UBSan and by the extracted model; non-trivial = "
         "the input is at least a 2-byte header with a supported version; distinct = distinct (input class, output)")
 ASSUMPTIONS = ["memory safety of the compiled decoder is observed by ASan/UBSan on the explored inputs; "
@@ -47,6 +48,12 @@ def generate(rng, tier):
         add([v], "tiny")
         for t in range(0, 9):
             add([v, t], "tiny")
+    # encodings whose size is exactly the fixed part: valid, one byte short, one byte long
+    for m, tag in G.minimal_messages(rng):
+        wire = G.py_encode(m)
+        add(wire, tag)
+        add(wire[:-1], tag + "-1")
+        add(wire + [0], tag + "+1")
     for i in range(n):
         m = G.rand_message(rng)
         wire = G.py_encode(m)
